@@ -67,6 +67,14 @@ LEGACY = [
     ("MofCompileImplLegacyRegister.cfg", "Reusable",
      "class name recorded as known before CreateClass succeeded: after a "
      "failed compile, valid MOF depending on that name is rejected", True),
+    ("MofCompileImplLegacyInstIdx.cfg", "ImplRefinesReq",
+     "p_instanceDeclaration does not shift the property list position for a "
+     "qualifier list in the alias branch: qualifier list + alias ends in "
+     "IndexError", True),
+    ("MofCompileImplLegacyOpen.cfg", "ImplRefinesReq",
+     "_compile_file opens the file first and handles only FileNotFoundError: "
+     "an include name with NUL / a lone surrogate ends in ValueError / "
+     "UnicodeEncodeError", True),
     ("MofCompileImplLegacyNsCaches.cfg", "ImplRefinesReq",
      "#pragma namespace creates only the qualifier cache: KeyError in the "
      "dependency fix-up of p_mp_createClass", False),
@@ -110,12 +118,53 @@ SIB = {1: "emb_null", 2: "emb_self", 3: "ref_self", 4: "param_unknown",
        5: "param_emb_null", 6: "emb_nonstring"}
 SPELL = {1: "dot", 2: "updown", 3: "parent"}
 NAMESPELL = {0: "declared", 1: "lower", 2: "upper"}
+# names of the digits of an `opt` production (OptDims of the spec)
+OPTNAMES = {
+    ("instance", "opt"): [("", "quals"), ("", "alias"),
+                          ("one", "many", "qualprops")],
+    ("class", "opt"): [("", "quals"), ("", "alias"), ("", "super"),
+                       ("nofeat", "onefeat", "manyfeat")],
+    ("class", "opt_prop"): [("", "quals"), ("scalar", "array", "ref"),
+                            ("", "default")],
+    ("class", "opt_method"): [("", "quals"), ("nopar", "onepar", "manypar"),
+                              ("", "parquals"), ("scalar", "array", "ref")],
+    ("qualDecl", "opt"): [("", "array"), ("", "default"),
+                          ("noflavor", "oneflavor", "manyflavor"),
+                          ("onescope", "manyscope")],
+}
+
+
+# defect kinds whose name is part of the signature of an escaping exception
+# (so that a known finding for one of them cannot absorb another defect that
+# happens to escape at the same code site)
+NAMED = {"huge_hex", "huge_binary", "emb_qual_nonstring", "null_key",
+         "array_key", "emb_nonstring_value", "super_wrongfile_searchpath",
+         "class_wrongfile_searchpath", "super_redefine_cycle", "nul_name",
+         "nul_in_dir", "surrogate_name", "overlong_name", "overlong_path",
+         "below_file", "dot_name", "escaped_name"}
+
+
+def named_in(ses):
+    return sorted(set(q["v"] for q in ses["main"] + ses["inc"]
+                      if q["v"] in NAMED and q["d"] != "none"))
+
+
+def is_opt(p):
+    return p["d"] == "none" and (p["k"], p["v"]) in OPTNAMES
+
+
+def optname(p):
+    digits = mofgen.Renderer.optdigits(p)
+    return "+".join(n[d] for n, d in zip(OPTNAMES[(p["k"], p["v"])], digits)
+                    if n[d])
 
 
 def pname(p):
     """k.d.v of a production, with the name of its parameter where the
     parameter selects a variant (sibling shape, path spelling)."""
     s = "%s.%s.%s" % pkey(p)
+    if is_opt(p):
+        s += "/" + optname(p)
     if p["k"] == "class" and p["d"] == "dependency" and p["a"] in SIB:
         s += "/" + SIB[p["a"]]
     if p["k"] == "include" and p["d"] in ("none", "dependency") and \
@@ -220,6 +269,11 @@ def select(ctx, sessions, quick):
         for s in shapes.get("A1", []):
             if repo:
                 add(s, *combos[n_combo % 2])
+            elif quick and fk[0][2].startswith("opt"):
+                # every combination of optional parts: the production alone
+                # on two api/handle pairs (+ one longer / included shape)
+                add(s, *COMBOS[n_combo % 2])
+                add(s, *COMBOS[2 + n_combo % 3])
             elif quick:
                 add(s, *COMBOS[0])
                 add(s, *COMBOS[1 + n_combo % 4])
@@ -234,7 +288,8 @@ def select(ctx, sessions, quick):
                 rest = [sh for sh in rest if sh == "B"] \
                     if n_combo % 4 == 0 else []
             elif len(rest) > 2:
-                rest = rng.sample(rest, 2)
+                rest = rng.sample(rest, 1 if fk[0][2].startswith("opt")
+                                  else 2)
             for sh in rest:
                 add(rng.choice(shapes[sh]), *rng.choice(combos))
         else:
@@ -475,14 +530,20 @@ def signature(ses, ev, clauses):
                 "%s.%s%s" % (f["k"], f["v"],
                              "/" + SPELL[f["a"]] if f["k"] == "include" and
                              f["a"] in SPELL else "") \
-                if focus_name(ses) != "multi" else "recursion"
+                if focus_name(ses) != "multi" else "recursion" + (
+                    "/multi:" + "+".join(named_in(ses)) if named_in(ses)
+                    else "")
         else:
             # a production whose parameter selects a variant (sibling shape,
             # path spelling) names the variant
             part = part_of(ses)
-            f = part[2] if part and part[0] in ("F", "G") else focus_of(ses)
+            f = part[2] if part else focus_of(ses)
             if focus_name(ses) != "multi" and "/" in pname(f):
                 site += "/" + pname(f).split("/", 1)[1]
+            elif focus_name(ses) != "multi" and f["v"] in NAMED:
+                site += "/" + f["v"]
+            elif focus_name(ses) == "multi" and named_in(ses):
+                site += "/multi:" + "+".join(named_in(ses))
         return "%s:Total.NoOtherException:%s@%s" % (ev["call"], ev["out"],
                                                     site)
     return "%s:%s:%s:%s" % (ev["call"], cl, focus_name(ses), ev["out"])
